@@ -1873,7 +1873,9 @@ func (w *qWorld) checkDeferredLate(adv time.Duration) {
 				what = fmt.Sprintf("requeued by %s at %v with delay %v", last.cons.cl.Name, last.AnsAt.Sub(w.rc.start), last.ReqDelay)
 			} else {
 				p := mc.pub
-				if p.DeferMs <= 0 || !p.Acked || p.lifetime != w.lifetime || p.TopicPausedAtSend {
+				if p.DeferMs <= 0 || !p.Acked || p.lifetime != w.lifetime || p.TopicPausedAtSend || w.topic(p.Topic).pausedBetween(p.SendStep, p.SendStep) {
+					// (a topic paused when the message arrives - also by a pause sent in the same burst - keeps it,
+					// and the delay starts when the topic hands it to its channels after the unpause)
 					continue
 				}
 				onChan := false
